@@ -78,6 +78,10 @@ def gen_idx(rng):
             i = rng.randrange(len(a))
             a = a[:i] + rng.choice(["", rng.choice("ACGT")]) + a[i + 1:]
         read = (a + read) if prefix else (read + a)
+    if read and rng.random() < 0.3:
+        # an N in the read (counts as a mismatch; sentence 1 is about all reads, the other sentences about N-free reads)
+        i = rng.randrange(len(read))
+        read = read[:i] + "N" + read[i + 1:]
     return {"prefix": prefix, "adapters": ads, "read": read, "rate": rng.choice([0, 0.2, 0.25, 0.34]), "indels": rng.random() < 0.5}
 
 
@@ -135,6 +139,8 @@ def check_idx(inp, res, err):
                 best = d
         if best is not None:
             occ[a] = best
+    if "N" in read:
+        return out
     if len(occ) == 1:
         a = next(iter(occ))
         for order, r in res.items():
@@ -156,5 +162,5 @@ def check_idx(inp, res, err):
 RUNTIME = {
     "environments": {"gen": gen_env, "call": call_env, "check": check_env, "bounds": "strings over ACGT of length <= 5, k <= 2"},
     "index": {"gen": gen_idx, "call": call_idx, "check": check_idx,
-              "bounds": "2-3 anchored adapters of length 3..6 (equal or different lengths, incl. near-identical barcodes), reads <= 15, rates {0,0.2,0.25,0.34}, indels on/off, both orders"},
+              "bounds": "2-3 anchored adapters of length 3..6 (equal or different lengths, incl. near-identical barcodes), reads <= 15 (30% with an N), rates {0,0.2,0.25,0.34}, indels on/off, both orders"},
 }
